@@ -174,6 +174,10 @@ def inputs_of(ev):
 
 def classify(ev):
     a, b = ev.get("from") or ev.get("a"), ev.get("to") or ev.get("b")
+    if ev.get("ev") == "rt":
+        return "round-trip"
+    if ev.get("ev") in ("nans", "stepend"):
+        return "sweep"
     if a in FLOATS and b in ("u64", "u128"):
         return "float-to-u64-u128-wrong"
     if a in FLOATS and b in INTS:
